@@ -76,7 +76,13 @@ void *alloc_flex(size_t a, size_t b, size_t c)
 	return NULL;
 }
 
+/* payload copies: extents are checked, bytes are not transferred (no
+ * obligation and no branch of append reads payload bytes) */
+#define C13_MEM_NO_WITNESS
+#include "C13/c13_mem.h"
 #include "lib/sqfs/src/block_processor/frontend.c"
+#undef memcpy
+#undef memset
 
 void harness(void)
 {
